@@ -631,24 +631,61 @@ func (h *harness) suitePca(n int) {
 		h.out.Case("pca "+vl.Hex(s), impl, s != "")
 		if wf {
 			h.out.Count("pca:wellformed")
-			d, err := plugin.ParseCompactArguments(s)
-			ok := err == nil && d.Name == name && len(d.Options) == len(kvs)
-			if ok {
-				packed := plugin.Pack(d.Options)
-				for j, kv := range kvs {
-					want := kv[0] + "="
-					if kv[1] != "\x00" {
-						want += kv[1]
-					}
-					if packed[j] != want {
-						ok = false
+			if !pcaHolds(name, kvs) {
+				// shrink: drop options, then simplify the name
+				for changed := true; changed; {
+					changed = false
+					for j := range kvs {
+						cand := append(append([][2]string{}, kvs[:j]...), kvs[j+1:]...)
+						if len(cand) > 0 && !pcaHolds(name, cand) {
+							kvs, changed = cand, true
+							break
+						}
 					}
 				}
-			}
-			if !ok {
+				if name != "p" && !pcaHolds("p", kvs) {
+					name = "p"
+				}
+				s = pcaRender(name, kvs)
 				h.out.Fail(vl.OracleFail{Key: keyOf("pca", s), What: "plugin parameters do not keep command-line order/content",
-					Input: map[string]interface{}{"kind": "pca", "s": s}, Expected: kvs, Observed: impl})
+					Input: map[string]interface{}{"kind": "pca", "s": s, "name": name, "kvs": kvs}, Expected: kvs, Observed: h.pcaImpl(s)})
 			}
 		}
 	}
+}
+
+func pcaRender(name string, kvs [][2]string) string {
+	var parts []string
+	for _, kv := range kvs {
+		if kv[1] == "\x00" {
+			parts = append(parts, kv[0])
+		} else {
+			parts = append(parts, kv[0]+"="+kv[1])
+		}
+	}
+	return name + ":" + strings.Join(parts, ",")
+}
+
+// pcaHolds: the ORACLE for option strings — parse then pack gives key=value in order.
+func pcaHolds(name string, kvs [][2]string) (ok bool) {
+	defer func() {
+		if recover() != nil {
+			ok = false
+		}
+	}()
+	d, err := plugin.ParseCompactArguments(pcaRender(name, kvs))
+	if err != nil || d.Name != name || len(d.Options) != len(kvs) {
+		return false
+	}
+	packed := plugin.Pack(d.Options)
+	for j, kv := range kvs {
+		want := kv[0] + "="
+		if kv[1] != "\x00" {
+			want += kv[1]
+		}
+		if packed[j] != want {
+			return false
+		}
+	}
+	return true
 }
